@@ -17,6 +17,7 @@
     related to `anc(a,b)`, `anc(a,c)`, and `exhausted`.
 -/
 import PrologVerif.Proofs.Refine
+import PrologVerif.Proofs.RefineExamples4
 namespace PrologVerif.Refine.Example
 open PrologVerif PrologVerif.Refine
 
